@@ -583,6 +583,9 @@ class ExclProxy:
         return r
 
 
+TIMEOUTS = {'n': 0}
+
+
 def run_glob_recorded(root, patterns, flagv, exclude=None, limit=1000, timeout=10):
     """Run wcmatch.glob.Glob(...).glob() under the recorder.  Returns dict(result | error, request for the model)."""
     import signal
@@ -616,14 +619,17 @@ def run_glob_recorded(root, patterns, flagv, exclude=None, limit=1000, timeout=1
     has_excl = bool(g.npatterns)
     if has_excl:
         g.npatterns = [ExclProxy(g.npatterns, exlog)]
+    if TIMEOUTS['n'] >= 3:
+        return {'error': 'TIMEOUT'}       # the run already timed out three times: stop exploring (it is reported)
     with trees.FSRecorder(root) as rec:
         old = signal.signal(signal.SIGALRM, onalarm)
-        signal.alarm(timeout)
+        signal.alarm(timeout if TIMEOUTS['n'] == 0 else 3)
         try:
             res = list(g.glob())
             err = None
         except Alarm:
             res, err = None, 'TIMEOUT'
+            TIMEOUTS['n'] += 1
         except RecursionError:
             res, err = None, 'RecursionError'
         finally:
